@@ -536,6 +536,74 @@ def family_hist_orth(rng, count):
     return out
 
 
+def family_deep_orth(rng, count):
+    """A deep history state whose parent contains an orthogonal state: root{out, T{H*, O||{R1{..}, R2{..}[, R3]}[, e]}}.
+    Leaving T while O is active memorises several states of equal depth; H is entered from out (events 1/2 leave and
+    come back, 3.. move inside the regions).  The order in which equal-depth states are re-entered is name order."""
+    out = []
+    while len(out) < count:
+        kind, parent = [], []
+
+        def add(k, p):
+            kind.append(k)
+            parent.append(p)
+            return len(kind)
+
+        root = add('compound', 0)
+        o_ = add('basic', root)
+        T = add('compound', root)
+        H = add('deep', T)
+        O = add('orthogonal', T)
+        extra = add('basic', T) if rng.random() < 0.4 else 0
+        leaves, regs = [], []
+        for _ in range(rng.randint(2, 3)):
+            if rng.random() < 0.75:
+                r = add('compound', O)
+                leaves.append([add('basic', r) for _ in range(2)])
+                regs.append(r)
+            else:
+                regs.append(add('basic', O))
+                leaves.append([])
+        n = len(kind)
+        initial = [0] * n
+        initial[root - 1] = rng.choice([o_, T])
+        initial[T - 1] = rng.choice([O, O, H] + ([extra] if extra else []))
+        for r, ls in zip(regs, leaves):
+            if ls:
+                initial[r - 1] = rng.choice(ls)
+        memory = [0] * n
+        memory[H - 1] = rng.choice([O] + ([extra] if extra else []))
+        pairs = [(o_, H, 1), (T, o_, 2), (o_, T, 3)]
+        ev = 4
+        for ls in leaves:
+            if ls:
+                pairs.append((ls[0], ls[1], ev))
+                pairs.append((ls[1], ls[0], ev))
+                if rng.random() < 0.5:
+                    pairs.append((ls[1], o_, 2))
+        if extra:
+            pairs.append((extra, O, ev))
+            pairs.append((O, extra, 5))
+        perm = list(range(1, n + 1))
+        rng.shuffle(perm)
+        m = dict(zip(range(1, n + 1), perm))
+        m[0] = 0
+        k2, p2, i2, m2 = [None] * n, [0] * n, [0] * n, [0] * n
+        for s in range(1, n + 1):
+            k2[m[s] - 1] = kind[s - 1]
+            p2[m[s] - 1] = m[parent[s - 1]]
+            i2[m[s] - 1] = m[initial[s - 1]]
+            m2[m[s] - 1] = m[memory[s - 1]]
+        c = new_chart(k2, p2, i2, m2)
+        c['trans'] = [mk_trans(m[a], m[b], e) for (a, b, e) in pairs if wf_transition(c, m[a], m[b])]
+        for s in range(1, n + 1):
+            c['entry'][s - 1] = desc(incx=rng.choice([0, 1]))
+        c['events'] = [1, 2, 3, 4, 5]
+        if wf(c):
+            out.append(c)
+    return out
+
+
 # ---------------------------------------------------------------- F3: seeded random, richer charts
 
 def random_tree(rng, n, allow_history=True, allow_final=True, p_orth=0.34):
